@@ -1068,6 +1068,34 @@ func gen(r *Rand) Input {
 		}
 	}
 
+	// realistic magnitudes (mainnet preset, Altair at epoch 0 or 74240, periods up to ~1800): a late
+	// start inside the last two epochs of a period, so that the window stays small
+	if r.Chance(1, 20) {
+		in.Tags = nil
+		p = p0
+		p.SPE, p.EPP = 32, 256
+		p.Fork = []uint64{0, 74240}[r.Intn(2)]
+		period := p.Fork/p.EPP + uint64(r.Range(0, 1500))
+		cl := period * p.EPP
+		if cl < p.Fork {
+			cl = p.Fork
+		}
+		E := (period + 1) * p.EPP * p.SPE
+		in.Par = p
+		in.Epoch, in.NotCur = cl, r.Bool()
+		in.Cur = E - uint64(r.Range(1, 70))
+		tag("mainnet-magnitude")
+		lo, hi, ok = specWindow(p, in.Epoch, in.Cur)
+		if !ok {
+			tag("window:empty")
+		} else if hi-lo < 2 {
+			tag("window:last-two-slots")
+		}
+		if ok && lo == in.Cur && in.NotCur {
+			tag("window:starts-now-excluded")
+		}
+	}
+
 	// members
 	n := r.Range(1, 4)
 	if r.Chance(1, 20) {
